@@ -184,11 +184,11 @@ Qed.
     newline and latex2text renders that token as exactly two newlines.  Every
     character of the witnesses is in the alphabet of the property. *)
 Theorem C08_paragraph_whitespace_refuted :
-  exists s, Forall (fun c => In c c08_alphabet) s /\
+  exists s, forallb (fun c => existsb (N.eqb c) c08_alphabet) s = true /\
     forall p sl, In p schemes -> In sl policies -> exists t, roundtrip p sl s = Some t /\ t <> s.
 Proof.
   exists [97; 10; 10; 10; 98]%N. split.
-  - repeat constructor; vm_compute; tauto.
+  - vm_compute; reflexivity.
   - intros p sl Hp Hs. exists [97; 10; 10; 98]%N. split; [|discriminate].
     cbn [In schemes policies] in Hp, Hs.
     destruct Hp as [<-|[<-|[<-|[<-|[]]]]]; destruct Hs as [<-|[<-|[]]]; vm_compute; reflexivity.
